@@ -11,7 +11,8 @@ from .. import core, pipes, structural as st
 
 THEOREMS = ['Pk.C19.C19_rowwise_names_are_transform', 'Pk.C19.C19_one_per_column', 'Pk.C19.C19_delay_names',
             'Pk.C19.C19_delay_values', 'Pk.C19.C19_symbols_only', 'Pk.C19.C19_episode_name',
-            'Pk.C19.C19_given_names']
+            'Pk.C19.C19_given_names', 'Pk.C19.C19_denotation', 'Pk.C19.C19_rowwise_natural',
+            'Pk.C19.C19_term_semantics']
 KINDS = ['poly', 'bilinear', 'const', 'delay', 'sk', 'angle', 'rbf', 'kernel']
 ORACLE_KINDS = ['poly', 'bilinear', 'const', 'delay', 'delay', 'angle']
 
